@@ -18,7 +18,7 @@ from ..ref import scores as RS
 from . import common
 
 ID = "C17"
-RUNS = {"quick": 2500, "thorough": 100000}
+RUNS = {"quick": 1500, "thorough": 100000}
 TIME = {"quick": 80, "thorough": 1500}
 N1 = {"quick": 1200, "thorough": 3000}
 WALL = 240.0
@@ -80,7 +80,7 @@ def generate(run_seed, tier):
     tied = names[:k]
     bs = [{"r": [[c]] + [[x] for x in rng.sample([y for y in names if y != c], rng.randint(0, len(names) - 1))], "w": "2"} for c in tied]
     if len(names) > k:
-        bs.append({"r": [[names[-1]]], "w": "5" if sub == "PluralityTie" else "9"})
+        bs.append({"r": [[names[-1]]], "w": "5" if sub == "PluralityTie" else "3"})
     jp = {"candidates": names, "ballots": bs}
     if sub == "PluralityTie":
         m = rng.randint(1, k - 1) + (1 if len(names) > k else 0)
